@@ -309,3 +309,262 @@ package engine
 //@   property C07
 //@   ensures[numeric] result == (f64(n) >= y)
 
+
+//@ ---------------------------------------------------------------- error constructors (abstract; bodies not verified)
+
+//@ spec abstract isTypeErr(e error, vt validType, culprit Term) bool
+
+//@ func typeError
+//@   trusted
+//@   modifies nothing
+//@   ensures isTypeErr(result, validType, culprit)
+
+//@ ---------------------------------------------------------------- dispatchers (C07): each pair of dynamic types goes to the kernel of that functor
+
+//@ func add
+//@   property C07
+//@   modifies nothing
+//@   ensures[II] x is Integer && y is Integer ==> (err == nil ==> result is Integer) && post(addI)(x as Integer, y as Integer, result as Integer, err)
+//@   ensures[IF] x is Integer && y is Float ==> (err == nil ==> result is Float) && post(addIF)(x as Integer, y as Float, result as Float, err)
+//@   ensures[FI] x is Float && y is Integer ==> (err == nil ==> result is Float) && post(addFI)(x as Float, y as Integer, result as Float, err)
+//@   ensures[FF] x is Float && y is Float ==> (err == nil ==> result is Float) && post(addF)(x as Float, y as Float, result as Float, err)
+
+//@ func sub
+//@   property C07
+//@   modifies nothing
+//@   ensures[II] x is Integer && y is Integer ==> (err == nil ==> result is Integer) && post(subI)(x as Integer, y as Integer, result as Integer, err)
+//@   ensures[IF] x is Integer && y is Float ==> (err == nil ==> result is Float) && post(subIF)(x as Integer, y as Float, result as Float, err)
+//@   ensures[FI] x is Float && y is Integer ==> (err == nil ==> result is Float) && post(subFI)(x as Float, y as Integer, result as Float, err)
+//@   ensures[FF] x is Float && y is Float ==> (err == nil ==> result is Float) && post(subF)(x as Float, y as Float, result as Float, err)
+
+//@ func mul
+//@   property C07
+//@   modifies nothing
+//@   ensures[II] x is Integer && y is Integer ==> (err == nil ==> result is Integer) && post(mulI)(x as Integer, y as Integer, result as Integer, err)
+//@   ensures[IF] x is Integer && y is Float ==> (err == nil ==> result is Float) && post(mulIF)(x as Integer, y as Float, result as Float, err)
+//@   ensures[FI] x is Float && y is Integer ==> (err == nil ==> result is Float) && post(mulFI)(x as Float, y as Integer, result as Float, err)
+//@   ensures[FF] x is Float && y is Float ==> (err == nil ==> result is Float) && post(mulF)(x as Float, y as Float, result as Float, err)
+
+//@ func div
+//@   property C07
+//@   modifies nothing
+//@   ensures[II] x is Integer && y is Integer ==> (err == nil ==> result is Float) && post(divII)(x as Integer, y as Integer, result as Float, err)
+//@   ensures[IF] x is Integer && y is Float ==> (err == nil ==> result is Float) && post(divIF)(x as Integer, y as Float, result as Float, err)
+//@   ensures[FI] x is Float && y is Integer ==> (err == nil ==> result is Float) && post(divFI)(x as Float, y as Integer, result as Float, err)
+//@   ensures[FF] x is Float && y is Float ==> (err == nil ==> result is Float) && post(divF)(x as Float, y as Float, result as Float, err)
+
+//@ func intDiv
+//@   property C07
+//@   modifies nothing
+//@   ensures[II] x is Integer && y is Integer ==> (err == nil ==> result is Integer) && post(intDivI)(x as Integer, y as Integer, result as Integer, err)
+//@   ensures[type-x] !(x is Integer) ==> isTypeErr(err, validTypeInteger, x)
+//@   ensures[type-y] x is Integer && !(y is Integer) ==> isTypeErr(err, validTypeInteger, y)
+
+//@ func rem
+//@   property C07
+//@   modifies nothing
+//@   ensures[II] x is Integer && y is Integer ==> (err == nil ==> result is Integer) && post(remI)(x as Integer, y as Integer, result as Integer, err)
+//@   ensures[type-x] !(x is Integer) ==> isTypeErr(err, validTypeInteger, x)
+//@   ensures[type-y] x is Integer && !(y is Integer) ==> isTypeErr(err, validTypeInteger, y)
+
+//@ func mod
+//@   property C07
+//@   modifies nothing
+//@   ensures[II] x is Integer && y is Integer ==> (err == nil ==> result is Integer) && post(modI)(x as Integer, y as Integer, result as Integer, err)
+//@   ensures[type-x] !(x is Integer) ==> isTypeErr(err, validTypeInteger, x)
+//@   ensures[type-y] x is Integer && !(y is Integer) ==> isTypeErr(err, validTypeInteger, y)
+
+//@ func intFloorDiv
+//@   property C07
+//@   modifies nothing
+//@   ensures[II] x is Integer && y is Integer ==> (err == nil ==> result is Integer) && post(intFloorDivI)(x as Integer, y as Integer, result as Integer, err)
+//@   ensures[type-x] !(x is Integer) ==> isTypeErr(err, validTypeInteger, x)
+//@   ensures[type-y] x is Integer && !(y is Integer) ==> isTypeErr(err, validTypeInteger, y)
+
+//@ func bitwiseAnd
+//@   property C07
+//@   modifies nothing
+//@   ensures[II] b1 is Integer && b2 is Integer ==> err == nil && result is Integer && (result as Integer) == ((b1 as Integer) & (b2 as Integer))
+//@   ensures[type-x] !(b1 is Integer) ==> isTypeErr(err, validTypeInteger, b1)
+//@   ensures[type-y] b1 is Integer && !(b2 is Integer) ==> isTypeErr(err, validTypeInteger, b2)
+
+//@ func bitwiseOr
+//@   property C07
+//@   modifies nothing
+//@   ensures[II] b1 is Integer && b2 is Integer ==> err == nil && result is Integer && (result as Integer) == ((b1 as Integer) | (b2 as Integer))
+//@   ensures[type-x] !(b1 is Integer) ==> isTypeErr(err, validTypeInteger, b1)
+//@   ensures[type-y] b1 is Integer && !(b2 is Integer) ==> isTypeErr(err, validTypeInteger, b2)
+
+//@ func xor
+//@   property C07
+//@   modifies nothing
+//@   ensures[II] x is Integer && y is Integer ==> err == nil && result is Integer && (result as Integer) == ((x as Integer) ^ (y as Integer))
+//@   ensures[type-x] !(x is Integer) ==> isTypeErr(err, validTypeInteger, x)
+//@   ensures[type-y] x is Integer && !(y is Integer) ==> isTypeErr(err, validTypeInteger, y)
+
+//@ func bitwiseComplement
+//@   property C07
+//@   modifies nothing
+//@   ensures[I] b1 is Integer ==> err == nil && result is Integer && (result as Integer) == ^(b1 as Integer)
+//@   ensures[type] !(b1 is Integer) ==> isTypeErr(err, validTypeInteger, b1)
+
+//@ func bitwiseLeftShift
+//@   property C07
+//@   modifies nothing
+//@   ensures[exact] n is Integer && s is Integer && 0 <= (s as Integer) && (s as Integer) <= 63 && inI64(shl(n as Integer, s as Integer))
+//@       ==> err == nil && result is Integer && (result as Integer) == shl(n as Integer, s as Integer)
+//@   ensures[type-x] !(n is Integer) ==> isTypeErr(err, validTypeInteger, n)
+//@   ensures[type-y] n is Integer && !(s is Integer) ==> isTypeErr(err, validTypeInteger, s)
+
+//@ func bitwiseRightShift
+//@   property C07
+//@   modifies nothing
+//@   ensures[exact] n is Integer && s is Integer && 0 <= (s as Integer) && (s as Integer) <= 63
+//@       ==> err == nil && result is Integer && shl(result as Integer, s as Integer) <= (n as Integer) && (n as Integer) < shl((result as Integer) + 1, s as Integer)
+//@   ensures[type-x] !(n is Integer) ==> isTypeErr(err, validTypeInteger, n)
+//@   ensures[type-y] n is Integer && !(s is Integer) ==> isTypeErr(err, validTypeInteger, s)
+
+//@ func neg
+//@   property C07
+//@   modifies nothing
+//@   ensures[I] x is Integer ==> (err == nil ==> result is Integer) && post(negI)(x as Integer, result as Integer, err)
+//@   ensures[F] x is Float ==> (err == nil ==> result is Float) && err == nil && post(negF)(x as Float, result as Float)
+
+//@ func abs
+//@   property C07
+//@   modifies nothing
+//@   ensures[I] x is Integer ==> (err == nil ==> result is Integer) && post(absI)(x as Integer, result as Integer, err)
+//@   ensures[F] x is Float ==> (err == nil ==> result is Float) && err == nil && post(absF)(x as Float, result as Float)
+
+//@ func pos
+//@   property C07
+//@   modifies nothing
+//@   ensures[I] x is Integer ==> (err == nil ==> result is Integer) && post(posI)(x as Integer, result as Integer, err)
+//@   ensures[F] x is Float ==> (err == nil ==> result is Float) && post(posF)(x as Float, result as Float, err)
+
+//@ func sign
+//@   property C07
+//@   modifies nothing
+//@   ensures[I] x is Integer ==> err == nil && result is Integer && post(signI)(x as Integer, result as Integer)
+//@   ensures[F] x is Float ==> err == nil && result is Float && post(signF)(x as Float, result as Float)
+
+//@ func asFloat
+//@   property C07
+//@   modifies nothing
+//@   ensures[I] x is Integer ==> err == nil && result is Float && post(floatItoF)(x as Integer, result as Float)
+//@   ensures[F] x is Float ==> err == nil && result is Float && post(floatFtoF)(x as Float, result as Float)
+
+//@ func floatIntegerPart
+//@   property C07
+//@   modifies nothing
+//@   ensures[F] x is Float ==> err == nil && result is Float && post(intPartF)(x as Float, result as Float)
+//@   ensures[type] !(x is Float) ==> isTypeErr(err, validTypeFloat, x)
+
+//@ func floatFractionalPart
+//@   property C07
+//@   modifies nothing
+//@   ensures[F] x is Float ==> err == nil && result is Float && post(fractPartF)(x as Float, result as Float)
+//@   ensures[type] !(x is Float) ==> isTypeErr(err, validTypeFloat, x)
+
+//@ func floor
+//@   property C07
+//@   modifies nothing
+//@   ensures[F] x is Float ==> (err == nil ==> result is Integer) && post(floorFtoI)(x as Float, result as Integer, err)
+//@   ensures[type] !(x is Float) ==> isTypeErr(err, validTypeFloat, x)
+
+//@ func truncate
+//@   property C07
+//@   modifies nothing
+//@   ensures[F] x is Float ==> (err == nil ==> result is Integer) && post(truncateFtoI)(x as Float, result as Integer, err)
+//@   ensures[type] !(x is Float) ==> isTypeErr(err, validTypeFloat, x)
+
+//@ func round
+//@   property C07
+//@   modifies nothing
+//@   ensures[F] x is Float ==> (err == nil ==> result is Integer) && post(roundFtoI)(x as Float, result as Integer, err)
+//@   ensures[type] !(x is Float) ==> isTypeErr(err, validTypeFloat, x)
+
+//@ func ceiling
+//@   property C07
+//@   modifies nothing
+//@   ensures[F] x is Float ==> (err == nil ==> result is Integer) && post(ceilingFtoI)(x as Float, result as Integer, err)
+//@   ensures[type] !(x is Float) ==> isTypeErr(err, validTypeFloat, x)
+
+//@ func max
+//@   property C07
+//@   modifies nothing
+//@   ensures[II] x is Integer && y is Integer ==> err == nil && result == ite((x as Integer) < (y as Integer), y, x)
+//@   ensures[IF] x is Integer && y is Float ==> err == nil && result == ite(f64(x as Integer) < (y as Float), y, x)
+//@   ensures[FI] x is Float && y is Integer ==> err == nil && result == ite((x as Float) < f64(y as Integer), y, x)
+//@   ensures[FF] x is Float && y is Float ==> err == nil && result == ite((x as Float) < (y as Float), y, x)
+
+//@ func min
+//@   property C07
+//@   modifies nothing
+//@   ensures[II] x is Integer && y is Integer ==> err == nil && result == ite((x as Integer) > (y as Integer), y, x)
+//@   ensures[IF] x is Integer && y is Float ==> err == nil && result == ite(f64(x as Integer) > (y as Float), y, x)
+//@   ensures[FI] x is Float && y is Integer ==> err == nil && result == ite((x as Float) > f64(y as Integer), y, x)
+//@   ensures[FF] x is Float && y is Float ==> err == nil && result == ite((x as Float) > (y as Float), y, x)
+
+
+//@ ---------------------------------------------------------------- arithmetic comparison built-ins (C07)
+
+//@ spec fun numRel(a Number, b Number, ii bool, ifl bool, fi bool, ff bool) bool =
+//@     (a is Integer && b is Integer && ii) || (a is Integer && b is Float && ifl) ||
+//@     (a is Float && b is Integer && fi) || (a is Float && b is Float && ff)
+//@ spec fun numEq(a Number, b Number) bool = numRel(a, b, (a as Integer) == (b as Integer), f64(a as Integer) == (b as Float), (a as Float) == f64(b as Integer), (a as Float) == (b as Float))
+//@ spec fun numLt(a Number, b Number) bool = numRel(a, b, (a as Integer) < (b as Integer), f64(a as Integer) < (b as Float), (a as Float) < f64(b as Integer), (a as Float) < (b as Float))
+//@ spec fun numLe(a Number, b Number) bool = numRel(a, b, (a as Integer) <= (b as Integer), f64(a as Integer) <= (b as Float), (a as Float) <= f64(b as Integer), (a as Float) <= (b as Float))
+
+//@ func eval
+//@   trusted
+//@   modifies nothing
+//@   ensures err == nil ==> result is Integer || result is Float
+
+//@ func Equal
+//@   property C07
+//@   bind v1, e1 = eval#1
+//@   bind v2, e2 = eval#2
+//@   calls k atmost 1
+//@   onk[holds] e1 == nil && e2 == nil && numEq(v1, v2)
+//@   nok[fails] e1 == nil && e2 == nil ==> !numEq(v1, v2)
+
+//@ func NotEqual
+//@   property C07
+//@   bind v1, e1 = eval#1
+//@   bind v2, e2 = eval#2
+//@   calls k atmost 1
+//@   onk[holds] e1 == nil && e2 == nil && !numEq(v1, v2)
+//@   nok[fails] e1 == nil && e2 == nil ==> numEq(v1, v2)
+
+//@ func LessThan
+//@   property C07
+//@   bind v1, e1 = eval#1
+//@   bind v2, e2 = eval#2
+//@   calls k atmost 1
+//@   onk[holds] e1 == nil && e2 == nil && numLt(v1, v2)
+//@   nok[fails] e1 == nil && e2 == nil ==> !numLt(v1, v2)
+
+//@ func GreaterThan
+//@   property C07
+//@   bind v1, e1 = eval#1
+//@   bind v2, e2 = eval#2
+//@   calls k atmost 1
+//@   onk[holds] e1 == nil && e2 == nil && numLt(v2, v1)
+//@   nok[fails] e1 == nil && e2 == nil ==> !numLt(v2, v1)
+
+//@ func LessThanOrEqual
+//@   property C07
+//@   bind v1, e1 = eval#1
+//@   bind v2, e2 = eval#2
+//@   calls k atmost 1
+//@   onk[holds] e1 == nil && e2 == nil && numLe(v1, v2)
+//@   nok[fails] e1 == nil && e2 == nil ==> !numLe(v1, v2)
+
+//@ func GreaterThanOrEqual
+//@   property C07
+//@   bind v1, e1 = eval#1
+//@   bind v2, e2 = eval#2
+//@   calls k atmost 1
+//@   onk[holds] e1 == nil && e2 == nil && numLe(v2, v1)
+//@   nok[fails] e1 == nil && e2 == nil ==> !numLe(v2, v1)
